@@ -33,8 +33,11 @@ Digest32 == [i \in 1..32 |-> (i * 37) % 256]
 Utf8Vals == {<<195, 169>>, <<208, 144, 208, 187, 208, 181, 208, 186>>, <<66, 195, 182, 108, 116, 101, 114>>,
              <<120, 194, 178>>, <<217, 163>>, <<101, 204, 129>>, <<229, 144, 141>>, <<240, 159, 152, 128>>,
              <<206, 163, 207, 128>>, <<97, 47, 195, 169, 37, 61, 32, 208, 176>>}
+\* values whose BYTES look like percent escapes ("%41", "%2F", "%2f", "%zz", "%25", "a%41b"): a parser that unescapes
+\* twice, or a printer that leaves '%' alone, changes them
+PctLikeVals == {<<37, 52, 49>>, <<37, 50, 70>>, <<37, 50, 102>>, <<37, 122, 122>>, <<37, 50, 53>>, <<97, 37, 52, 49, 98>>}
 Vals == {<<b>> : b \in 0..255} \cup {<<a, b>> : a, b \in Alpha12} \cup {<<>>}
-        \cup NumVals \cup OddVals \cup {Digest32} \cup Utf8Vals
+        \cup NumVals \cup OddVals \cup {Digest32} \cup Utf8Vals \cup PctLikeVals
 Comps == {Comp(t, v) : t \in Types, v \in Vals}
 
 RFull == << Comp(8, <<>>), Comp(8, <<97>>), Comp(8, <<47>>), Comp(8, <<37>>), Comp(8, <<61>>),
@@ -63,7 +66,9 @@ Domain == CASE Mode = "comp" -> Comps
             [] Mode = "pair" -> QNames \X QNames
             [] Mode = "ord"  -> OrdComps \X OrdComps
 \* what stage B replays into the library for one input (computed by the workers, read back from -dump)
-CompRec(c) == [t |-> c.t, v |-> c.v, enc |-> Enc(c), forms |-> CompForms(c)]
+\* dec: decimal text of the big-endian number the value holds (what Component.to_number must return), typed-number types
+CompRec(c) == [t |-> c.t, v |-> c.v, enc |-> Enc(c), forms |-> CompForms(c),
+               dec |-> IF c.t \in AltTypes THEN NumToDec(c.v) ELSE <<>>]
 NameRec(n) == [n |-> n, encs |-> EncList(n), wire |-> EncName(n), forms |-> NameForms(n),
                parts |-> [k \in {"canonU", "canonL", "short", "raw", "rawU"} |-> [i \in 1..Len(n) |-> FormOf(n[i], k)]]]
 Rec(v) == CASE Mode = "comp" -> CompRec(v) [] Mode = "name" -> NameRec(v) [] OTHER -> <<>>
